@@ -209,23 +209,37 @@ def check_unit(template, tree, seed=None, canary=True, tag=""):
         return res
     res.status = "ok"
     if canary and gen.canary_fns:
-        ctext = extract.make_canary(gen)
-        cpath = os.path.join(VWORK, "%s%s_canary.rs" % (name, tag))
-        with open(cpath, "w") as fh:
-            fh.write(ctext)
-        cj, cd, cerr, cwall, _ = run_verus(cpath)
-        clines = [n for n, ln in enumerate(ctext.split("\n"), 1) if "/*@@CANARY*/" in ln]
-        hit = set()
-        for d in cd:
-            if d.get("level") != "error":
-                continue
-            for sp in d.get("spans", []):
-                if sp["line_start"] in clines:
-                    hit.add(sp["line_start"])
-        res.total_ms += (cj or {}).get("times-ms", {}).get("total", 0)
-        if len(hit) == len(clines):
-            res.canary = "rejected %d/%d" % (len(hit), len(clines))
+        from concurrent.futures import ThreadPoolExecutor
+
+        def one(idx_fn):
+            idx, fn = idx_fn
+            ctext = extract.make_canary(gen, only=fn)
+            cpath = os.path.join(VWORK, "%s%s_canary%d.rs" % (name, tag, idx))
+            with open(cpath, "w") as fh:
+                fh.write(ctext)
+            cj, cd, cerr, cwall, _ = run_verus(cpath)
+            clines = [n for n, ln in enumerate(ctext.split("\n"), 1) if "/*@@CANARY*/" in ln]
+            hit = False
+            for d in cd:
+                if d.get("level") != "error":
+                    continue
+                for sp in d.get("spans", []):
+                    if sp["line_start"] in clines:
+                        hit = True
+            try:
+                os.unlink(cpath)
+            except OSError:
+                pass
+            return fn, hit, (cj or {}).get("times-ms", {}).get("total", 0)
+
+        with ThreadPoolExecutor(max_workers=6) as ex:
+            outs = list(ex.map(one, enumerate(gen.canary_fns)))
+        res.total_ms += sum(o[2] for o in outs)
+        bad = [o[0] for o in outs if not o[1]]
+        if not bad:
+            res.canary = "rejected %d/%d" % (len(outs), len(outs))
         else:
             res.canary = "ACCEPTED"
-            res.status, res.reason = "undecided", "vacuity guard: `ensures false` canary accepted for %d function(s): contradictory precondition" % (len(clines) - len(hit))
+            res.status = "undecided"
+            res.reason = "vacuity guard: `ensures false` canary accepted for %s: contradictory precondition or assumed contract" % ", ".join(bad)
     return res
